@@ -129,5 +129,10 @@ Keys_str == <<X, Y, X8, Add(X, Y), Add(Y, X), KOp("__sub__", <<X, Y>>, 4),
              KOpI("ZeroExt", <<4>>, <<X>>, 8), KOpI("SignExt", <<4>>, <<X>>, 8),
              KOp("__add__", <<X, Y>>, 8)>>          \* same operation and arguments as Add(X, Y), built with width 8
 Anns_str == <<HV("3")>>
+\* mrk: scalar contents next to the one-byte markers of the hash-cons key (Base._arg_serialize: None = 0x0f, True = 0x1f,
+\* False = 0x2e): a field that is None / True / False on one node and 15 / 31 / 46 on another node over the same
+\* expression; 1 and 0 because True == 1 and False == 0 in Python
+Keys_mrk == <<X, Add(X, Y)>>
+Anns_mrk == <<HV("None"), HV("15"), HV("True"), HV("31"), HV("False"), HV("46"), HV("1"), HV("0")>>
 None == <<>>
 =============================================================================
